@@ -1152,9 +1152,14 @@ dt_strfd(char *restrict buf, size_t bsz, const char *fmt, struct dt_d_s that)
 			*bp++ = *fp_sav;
 		} else if (LIKELY(!spec.rom)) {
 			bp += __strfd_card(bp, eo - bp, spec, &d, that);
+			if (UNLIKELY(bp > eo)) {
+				/* snprintf()ing specs report what they
+				 * would have written */
+				bp = eo;
+			}
 			if (spec.ord) {
 				bp += __ordtostr(bp, eo - bp);
-			} else if (spec.bizda) {
+			} else if (spec.bizda && bp < eo) {
 				/* don't print the b after an ordinal */
 				if (spec.ab == BIZDA_AFTER) {
 					*bp++ = 'b';
